@@ -428,7 +428,23 @@ class Check:
                     fails = self.run_oracle(ocases)
                     n_oracle += len(ocases)
                     oracle_fail.extend((sname,) + f for f in fails)
-                    cov["streams"][sname] = {"cases": len(cases), "mode": mode, "mismatches": nm,
+                    # live-object probe (shared state across objects, aliased caller configuration)
+                    n_probe = 0
+                    if cases and not getattr(prop, "NO_LIVE_PROBE", False):
+                        from harness import liveprobe
+                        k = min(len(cases), getattr(prop, "LIVE_PROBE", {}).get(self.tier, 60 if self.tier == "quick" else 400))
+                        sample = rng.sample(cases, k)
+                        for a_case in sample:
+                            b_case = rng.choice(cases)
+                            r = liveprobe.probe_pair(prop.impl, a_case, b_case)
+                            n_probe += 1
+                            if r is not None:
+                                sig = "%s/live-object/%s" % (pid, r[0])
+                                fails.append((sig, r[1] + " [then op %d args %s]" % (b_case[0], str([list(x)[:12] for x in b_case[1]])[:200]),
+                                              a_case, ires[cases.index(a_case)]))
+                                oracle_fail.append((sname, sig, fails[-1][1], a_case, fails[-1][3]))
+                                break
+                    cov["streams"][sname] = {"cases": len(cases), "mode": mode, "mismatches": nm, "live_probe_pairs": n_probe,
                                              "oracle_checked": len(ocases), "oracle_failures": len(fails),
                                              "wall_s": round(time.time() - t, 2)}
                     if getattr(cases, "exhaustive", False) or sname.startswith("exh"):
